@@ -1498,7 +1498,9 @@ class InventoryHP(AbstractInventory):
             for nuc, val in contents.items():
                 if not isinstance(val, (numbers.Real, Expr)) or isinstance(val, bool):
                     raise ValueError(f"{val} is not a valid quantity of nuclide {nuc}.")
-            contents = {nuc: nsimplify(val) for nuc, val in contents.items()}
+            contents = {
+                nuc: nsimplify(val, rational=True) for nuc, val in contents.items()
+            }
 
         self.sig_fig = 320
         super().__init__(contents, units, check, decay_data)
@@ -1672,7 +1674,7 @@ class InventoryHP(AbstractInventory):
                 "InventoryHP.sig_fig attribute needs to be int greater than 0."
             )
 
-        decay_time = nsimplify(decay_time)
+        decay_time = nsimplify(decay_time, rational=True)
         decay_time = self._convert_decay_time(decay_time, units)
         vector_n0, indices, matrix_e = self._setup_decay_calc()
 
@@ -1731,7 +1733,7 @@ class InventoryHP(AbstractInventory):
                 "InventoryHP.sig_fig attribute needs to be int greater than 0."
             )
 
-        decay_time = nsimplify(decay_time)
+        decay_time = nsimplify(decay_time, rational=True)
         decay_time = self._convert_decay_time(decay_time, units)
         vector_n0, indices, matrix_e = self._setup_decay_calc()
 
